@@ -655,16 +655,24 @@ func (d *decoder) parseDataFields(dm *defmsg, knownMsg bool, msgv reflect.Value)
 		}
 
 		if padding != 0 {
-			// Widen the value to the size of the profile base type.
+			// Widen the value to the size of the profile base type,
+			// extending the sign of negative signed integers.
 			psize := pfield.t.BaseType().Size()
+			fill := byte(0x00)
 			if dm.arch == le {
+				if dfield.btype.Signed() && d.tmp[dsize-1]&0x80 != 0 {
+					fill = 0xFF
+				}
 				for j := dsize; j < psize; j++ {
-					d.tmp[j] = 0x00
+					d.tmp[j] = fill
 				}
 			} else {
+				if dfield.btype.Signed() && d.tmp[0]&0x80 != 0 {
+					fill = 0xFF
+				}
 				copy(d.tmp[padding:psize], d.tmp[:dsize])
 				for j := 0; j < padding; j++ {
-					d.tmp[j] = 0x00
+					d.tmp[j] = fill
 				}
 			}
 			// The value is now held as the profile base type.
